@@ -184,7 +184,18 @@ func GoConstraint() *rapid.Generator[string] {
 // NuGetRange generates NuGet ranges: bare, bracketed, floating.
 func NuGetRange() *rapid.Generator[string] {
 	return rapid.Custom(func(t *rapid.T) string {
-		ver := func(label string) string { return partial(t, label, false, true, false) }
+		ver := func(label string) string {
+			v := partial(t, label, false, true, false)
+			// NuGet versions may have a fourth number (the revision).
+			if strings.Count(v, ".") == 2 && rapid.IntRange(0, 5).Draw(t, label+"four") == 0 {
+				rev := rapid.SampledFrom([]string{"0", "1", "4", "10"}).Draw(t, label+"rev")
+				if i := strings.IndexByte(v, '-'); i > 0 {
+					return v[:i] + "." + rev + v[i:]
+				}
+				return v + "." + rev
+			}
+			return v
+		}
 		switch rapid.IntRange(0, 7).Draw(t, "kind") {
 		case 0:
 			return ver("v")
